@@ -15,6 +15,7 @@ for c in $(git log --format=%h --grep='^fix:'); do
       *"label passed twice"*) n=revert_duplicate_label;;
       *"DeleteAll must count"*) n=revert_syncmap_deleteall_count;;
       *"racing ExpireAll"*) n=revert_prepareread_order;;
+      *"restored into an UnlimitedTTL"*) n=revert_restore_expirations;;
       *) n=revert_$c;;
     esac
   fi
